@@ -89,7 +89,9 @@ def put_license_in_file(
     destination = Path(destination)
     destination.parent.mkdir(exist_ok=True)
 
-    if destination.exists():
+    # A dangling symbolic link does not "exist", but opening it for writing
+    # would create its target, wherever that is.
+    if destination.exists() or destination.is_symlink():
         raise FileExistsError(
             errno.EEXIST, os.strerror(errno.EEXIST), str(destination)
         )
